@@ -1,0 +1,6 @@
+//go:build verif && !amd64
+
+package dsp
+
+// VerifDisableAVX2 is a no-op where there is no AVX2 path. Verification harness only.
+func VerifDisableAVX2() {}
